@@ -401,6 +401,10 @@ class Resource(object):
 
     @staticmethod
     def extract_rootnum_and_frag(fragment):
+        if fragment.startswith('#'):
+            # the separator is not part of the fragment ('#/1/A' is what
+            # eURIFragment() gives for a metamodel element of the second root)
+            fragment = fragment[1:]
         if re.match(r'^/\d+.*', fragment):
             fragment = fragment[1:]
             if '/' in fragment:
